@@ -198,6 +198,11 @@ def run_case(case, rec):
             ts = rng.uniform(0.0, 1.5, case["nt"])
             npts = sp.shape[0]
             tt = np.repeat(ts, npts)[:, None, None] * np.ones((1, 1, nfac))
+            if case["seed"] % 2:
+                # a hand-built batch need not use the same time stamps on every facet: facet k's border points are
+                # the (t, x) rows of ITS slot
+                tt = np.repeat(rng.uniform(0.0, 1.5, (case["nt"], nfac)), npts, axis=0)[:, None, :]
+                rec.count("hand_batches_with_per_facet_times")
             xx = np.tile(sp, (case["nt"], 1, 1))
             border = np.concatenate([tt, xx], axis=1)
             batch = jinns.data.PDENonStatioBatch(times_x_inside_batch=jnp.zeros((2, 1 + d)),
